@@ -45,6 +45,7 @@ Field instance:
 
 
 """
+import copy
 import logging
 from typing import Callable, Optional
 
@@ -152,6 +153,10 @@ class MetaStruct(type):
         for aname, field in data.items():
             if hasattr(field, "_inspect_args"):
                 data[aname] = Field(field)
+            elif isinstance(field, Field) and field.name is not None:
+                # already laid out in another struct (e.g. taken over with
+                # {**Other._xofields}): this struct gets its own copy
+                data[aname] = copy.copy(field)
         for aname, field in data.items():
             if isinstance(field, Field):
                 field.index = findex
